@@ -497,6 +497,61 @@ def part_e(ctx):
         shutil.rmtree(tmp, ignore_errors=True)
 
 
+def part_f(ctx):
+    """the JSON dumps of a delta: loading one resolves no name outside the allow-list either -- a type name that is not one of the documented ones stays a text,
+    and applying the loaded delta calls nothing"""
+    import builtins, json, os
+    from deepdiff import Delta
+    from deepdiff.serialization import json_loads, SAFE_TO_IMPORT, TYPE_STR_TO_TYPE
+    allowed = {getattr(builtins, n.split('.', 1)[1]) for n in SAFE_TO_IMPORT if n.startswith('builtins.') and hasattr(builtins, n.split('.', 1)[1])} | set(TYPE_STR_TO_TYPE.values())
+    names = [n for n in dir(builtins) if not n.startswith('_') and callable(getattr(builtins, n)) and getattr(builtins, n) not in allowed]
+    names = ['eval', 'exec', 'open', '__import__', 'getattr', 'compile', 'breakpoint', 'input'] + ctx.rng.sample(names, min(len(names), 40 if ctx.thorough() else 10))
+    apply_ok = {'eval', 'exec'}          # the delta is applied only where a resolved name could do no more than set the flag (input / breakpoint / exit would block or end the check)
+    flag = 'VERIF_C15_JSON_HIT'
+
+    def walk(v):
+        if isinstance(v, dict):
+            for x in v.values():
+                yield from walk(x)
+        elif isinstance(v, (list, tuple, set, frozenset)):
+            for x in v:
+                yield from walk(x)
+        else:
+            yield v
+
+    for name in names:
+        hostile = "__import__('os').environ.__setitem__('%s', '1')" % flag
+        for payload in ({'type_changes': {"root['a']": {'old_type': 'str', 'new_type': name}}},
+                        {'type_changes': {"root['a']": {'old_type': name, 'new_type': 'str', 'new_value': 'v'}}},
+                        {'type_changes': {'root[0]': {'old_type': 'builtins.' + name, 'new_type': 'builtins.' + name}}}):
+            text = json.dumps(payload)
+            for route in ('json_loads', 'Delta'):
+                case = {'clause': 'JSON dump naming a builtin outside the allow-list', 'name': name, 'route': route, 'payload': text}
+                ctx.evaluations += 1
+                os.environ.pop(flag, None)
+                try:
+                    if route == 'json_loads':
+                        loaded = json_loads(text)
+                    else:
+                        d = Delta(text, deserializer=json_loads, raise_errors=False, log_errors=False)
+                        loaded = d.diff
+                        if name in apply_ok:
+                            try:
+                                {'a': hostile} + d
+                                [hostile] + d
+                            except BaseException:
+                                pass
+                except Exception as e:
+                    ctx.count('json_refused:' + type(e).__name__); continue
+                ctx.count('json_loaded')
+                ctx.nontriv((name, route, text))
+                bad = [v for v in walk(loaded) if (callable(v) or isinstance(v, type)) and v not in allowed]
+                if bad:
+                    ctx.violate(case, 'loading the JSON dump resolved %r, which is not on the allow-list' % bad[:3])
+                if os.environ.pop(flag, None):
+                    ctx.violate(case, 'applying the loaded delta evaluated a value of the target')
+
+
 def run(ctx):
     core.witnesses(ctx, ID, {'F44': f44_witness})
     install_sentinel()
@@ -505,6 +560,7 @@ def run(ctx):
     part_c(ctx)
     part_d(ctx)
     part_e(ctx)
+    part_f(ctx)
 
 
 def f44_witness():
